@@ -42,7 +42,7 @@ theorem C08_wallet_dryrun_keeps_disk (s : State) (op : Op) (h : op.isDryRun = tr
   | importAcct dry sc nm key n =>
     simp only [Op.isDryRun] at h
     subst h
-    simp only [step, stepImport]
+    simp only [step, stepImport, stepImportWith]
     split
     · rfl
     · split
@@ -137,7 +137,7 @@ theorem C08_wallet_failed_keeps_disk (s : State) (op : Op) (h : (step s op).2.is
     cases dry with
     | true => exact C08_wallet_dryrun_keeps_disk s _ rfl
     | false =>
-      simp only [step, stepImport] at h ⊢
+      simp only [step, stepImport, stepImportWith] at h ⊢
       split
       · rfl
       · rename_i h0
@@ -262,6 +262,64 @@ theorem C08_wallet_next_issue_eq_reopen (ops : List Op) (sc : Scope) (a : Acct) 
   simp only [step, stepNewAddr, issue1_none_res, begin, reopen, issue1_res,
     loadAcct_fst _ _ sc a hc, loadAcct_fst _ _ sc a he]
 
+/-- result of a single-address request as a function of the database alone -/
+def issueSpec (d : Disk) (sc : Scope) (a : Acct) (i : Bool) : Except Err (List Addr) :=
+  match d.rows sc a with
+  | none => .error .acctNotFound
+  | some r =>
+    if 1 > maxAddrs ∨ (if i = true then r.int else r.ext) + 1 > maxAddrs then .error .tooMany
+    else if 1 > 0 ∧ (d.rows sc a).isNone then .error .dbError
+    else .ok [⟨r.key, i, if i = true then r.int else r.ext⟩]
+
+theorem issue1_res_coh (s : State) (t : Tx) (sc a i) (h : Coh t.d t.m) :
+    (issue1 s t sc a i none).2 = resOfIssue (issueSpec t.d sc a i) := by
+  rw [issue1_none_res, issue1_res, loadAcct_fst _ _ sc a h]; rfl
+
+/-- result of CurrentAddress as a function of the database alone -/
+def curSpec (d : Disk) (sc : Scope) (a : Acct) : Res :=
+  match d.rows sc a with
+  | none => .err .acctNotFound
+  | some r =>
+    if r.ext = 0 then resOfIssue (issueSpec d sc a false)
+    else if d.funded.contains (sc, (⟨r.key, false, r.ext - 1⟩ : Addr)) then resOfIssue (issueSpec d sc a false)
+    else .addr ⟨r.key, false, r.ext - 1⟩
+
+theorem stepCurAddr_res (s : State) (sc a) (h : Coh s.disk s.mem) : (stepCurAddr s sc a).2 = curSpec s.disk sc a := by
+  have h1 := loadAcct_coh s.disk s.mem sc a h
+  unfold stepCurAddr curSpec
+  simp only [loadAcct_fst _ _ sc a h]
+  cases s.disk.rows sc a with
+  | none => rfl
+  | some r =>
+    simp only []
+    have e1 : (stepNewAddr { s with mem := (loadAcct s.disk s.mem sc a).2 } sc a false).2 =
+        resOfIssue (issueSpec s.disk sc a false) :=
+      issue1_res_coh _ (begin { s with mem := (loadAcct s.disk s.mem sc a).2 }) sc a false h1
+    split
+    · exact e1
+    · split
+      · exact e1
+      · rfl
+
+/-- the same for CurrentAddress (which re-issues only when the last address is used) -/
+theorem C08_wallet_current_address_eq_reopen (ops : List Op) (sc : Scope) (a : Acct) :
+    (step (run init ops) (.curAddr sc a)).2 = (step (reopen (run init ops)) (.curAddr sc a)).2 := by
+  have hc := C08_wallet_coherent_invariant ops
+  have he : Coh (reopen (run init ops)).disk (reopen (run init ops)).mem := emptyMem_coh _ _ hc
+  simp only [step]
+  rw [stepCurAddr_res _ sc a hc, stepCurAddr_res _ sc a he]
+  rfl
+
+/-- **No phantom accounts**: after every history (in particular after a FAILING ImportAccountDryRun) nothing is
+cached for an account number the database does not have, so the next committed ImportAccount / NextAccount that
+receives the number is answered from its own row (the property seeded change C08-3 breaks). -/
+theorem C08_wallet_no_phantom_account (ops : List Op) (sc : Scope) (a : Acct)
+    (h : (run init ops).disk.rows sc a = none) : (run init ops).mem.accts sc a = none := by
+  have hc := C08_wallet_coherent_invariant ops
+  cases hm : (run init ops).mem.accts sc a with
+  | none => rfl
+  | some r => rw [hc.cache sc a r hm] at h; cases h
+
 /-! ## 4. what is FALSE on the current tree (each replayed on the real code by engine `wallet-restart`) -/
 
 /-- F9 at the wallet level: the change address of a dry-run CreateSimpleTx stays in the address cache; the running
@@ -272,18 +330,26 @@ theorem C08_wallet_counterexample_dryrun_address_cache :
     askRunning s (.addrInfo 1 ⟨100, true, 0⟩) = .num 0 ∧ askRestarted s (.addrInfo 1 ⟨100, true, 0⟩) = .none := by
   decide
 
-/-- the same for the preview addresses of ImportAccountDryRun (`ImportAccountDryRun.address-cache-not-reverted`) -/
-theorem C08_wallet_counterexample_importdry_address_cache :
-    let s := run init [.importAcct true 1 2 1 1]
+/-- BEFORE the fix of `InvalidateAccountCache` (repo-patches/fix-C08-invalidate-account-cache-derive-on-unlock.diff)
+the preview addresses of ImportAccountDryRun stayed in the address cache
+(`ImportAccountDryRun.address-cache-not-reverted`) ... -/
+theorem C08_wallet_counterexample_unfixed_importdry_address_cache :
+    let s := (stepImportWith invalUnfixed init true 1 2 1 1).1
     askRunning s (.addrInfo 1 ⟨1, false, 0⟩) = .num 1 ∧ askRestarted s (.addrInfo 1 ⟨1, false, 0⟩) = .none := by
   decide
 
-/-- ImportAccountDryRun leaves the dry-run account registered for derive-on-unlock: after Lock, Unlock with the
-right passphrase fails on the running wallet and succeeds on a restarted one.
-Go oracle key `ImportAccountDryRun.unlock-fails-unlike-restart`; replay `importdry ..; lock; unlock`. -/
-theorem C08_wallet_counterexample_dryrun_unlock :
-    let s := run init [.importAcct true 1 2 2 1, .lock]
+/-- ... and the dry-run account stayed registered for derive-on-unlock: after Lock, Unlock with the right
+passphrase failed on the running wallet and succeeded on a restarted one
+(`ImportAccountDryRun.unlock-fails-unlike-restart`; replay `importdry ..; lock; unlock` on the unfixed tree). -/
+theorem C08_wallet_counterexample_unfixed_dryrun_unlock :
+    let s := (step (stepImportWith invalUnfixed init true 1 2 2 1).1 .lock).1
     (step s .unlock).2 = .err .acctNotFound ∧ (step (reopen s) .unlock).2 = .ok := by
+  decide
+
+/-- with the fixed `InvalidateAccountCache` (the model's `inval`) both are gone on the same inputs -/
+example :
+    let s := run init [.importAcct true 1 2 1 1, .lock]
+    askRunning s (.addrInfo 1 ⟨1, false, 0⟩) = .none ∧ (step s .unlock).2 = .ok := by
   decide
 
 /-- ... while the dry run + the real import of the same xpub behaves: same account number, same first address as a
